@@ -1038,12 +1038,13 @@ class Descriptor(ObjectWithFields):
                                      self.classname(), self.size, len(payload))
             self.size = len(payload)
         d.write('B', 'tag')
+        # most significant group first, as parse_header() reads them
         sizes = []
         size = self.size
         while size > 0x7f:
-            sizes.append(size & 0x7f)
+            sizes.insert(0, size & 0x7f)
             size = size >> 7
-        sizes.append(size & 0x7f)
+        sizes.insert(0, size & 0x7f)
         while sizes:
             a = sizes.pop(0)
             flag = 0x80 if sizes else 0x00
